@@ -24,7 +24,7 @@ def t32_reps(k):
 def solve_designs(tier):
     out = [("tall6x3", A.G_TALL), ("wide3x5", A.G_WIDE), ("sq4x4", A.G_SQ),
            ("wide-zeromid", A.Z()["wide3x5-zeromid"]), ("dup", A.K()["dup"]), ("scaled-tall", A.S()["scaled-tall"])]
-    out += [("T32r%d" % i, X) for i, X in enumerate(t32_reps(4 if tier == "quick" else 12))]
+    out += [("T32r%d" % i, X) for i, X in enumerate(t32_reps(2 if tier == "quick" else 12))]
     return out
 
 
@@ -92,7 +92,7 @@ def penalty_specs(pname, dspec, X, y, fit_intercept, tier, fracs=None):
         a0 = 1.0
     if not np.isfinite(a0) or a0 <= 0:
         a0 = 1.0
-    fr = fracs or ((0.5, 0.1, 0.01) if tier == "quick" else (1.5, 0.5, 0.1, 0.01))
+    fr = fracs or ((0.3, 0.03) if tier == "quick" else (1.5, 0.5, 0.1, 0.01))
     out = []
     Lmin = lips_min(dspec, X, y)
     for f in fr:
